@@ -1,6 +1,7 @@
 """Importable harness classes for the JSON checks (C18, C19)."""
 from __future__ import annotations
 
+import enum
 from dataclasses import dataclass
 from typing import Any
 
@@ -130,3 +131,38 @@ a_list = [Box]
 a_dict = {"Box": Box}
 a_set = {1, 2}
 a_value_instance = Box(1)  # a dataclass with value equality: instances are unhashable
+
+
+class Level(enum.IntEnum):
+    """a registered third-party type that is ALSO an int (a JSON leaf type): the registry must still be asked"""
+    LOW = 1
+    HIGH = 2
+
+
+JSONSerializableTypeRegistry().register(
+    Level,
+    lambda o: {JSON_TYPE_NAME: get_full_class_name(Level), "v": int(o)},
+    lambda d, **kw: Level(d["v"]),
+)
+
+
+class Tagline(str):
+    """a registered third-party type that is also a str"""
+
+
+JSONSerializableTypeRegistry().register(
+    Tagline,
+    lambda o: {JSON_TYPE_NAME: get_full_class_name(Tagline), "v": str(o)},
+    lambda d, **kw: Tagline(d["v"]),
+)
+
+
+class Bag(list, SubclassJSONSerializer):
+    """a serialisable class that is also a list"""
+
+    def to_json(self):
+        return {**super().to_json(), "items": to_json(list(self))}
+
+    @classmethod
+    def _from_json(cls, data, **kwargs):
+        return cls(from_json(data["items"]))
